@@ -86,15 +86,15 @@ func (s *byteStreamSrc) ReadByte() (byte, error) {
 }
 
 type ROp struct {
-	K    string // "read", "readbyte", "seek", "seeklast", "blocked", "setcache", "close"
-	N    int
-	M    int  // member index (0-based) for seek
-	Off  int  // in-member offset for seek
-	V    bool // blocked value
-	Kind string
-	Cap  int
+	K     string // "read", "readbyte", "seek", "seeklast", "blocked", "setcache", "close"
+	N     int
+	M     int  // member index (0-based) for seek
+	Off   int  // in-member offset for seek
+	V     bool // blocked value
+	Kind  string
+	Cap   int
 	Stats bool
-	Pre  bool // the cache was used before by another reader of the same stream (it holds that reader's blocks)
+	Pre   bool // the cache was used before by another reader of the same stream (it holds that reader's blocks)
 }
 
 // LastSrcReads / LastSrcSeeks: underlying call counts of the most recent scenario (for
@@ -104,20 +104,20 @@ var LastSrcReads, LastSrcSeeks int
 type RScenario struct {
 	Altered    bool   // a byte of the stream was altered: the member table no longer describes it
 	HasEOFWant string // "" (not checked), or "false": bgzf.HasEOF on the stream must report false
-	Truth     *Truth // when set (C01 read-back), replies carry hpos/dok instead of data/pm
-	Class     string
-	File      *File
-	Stream    []byte // bytes actually given to the reader (cut / corrupted variants); nil = File.Bytes
-	Faultable bool
-	CutLen    int64 // -1, or logical length before a cut on a member boundary
-	RD        int
-	Ops       []ROp
-	FailRead  int
-	FailSeek  int
-	Partial   bool
-	Sticky    bool
-	Ref       []tr.M // replies of the reference (uncached) run, for "same" comparison
-	SrcKind   string // "" = seekable *Src; "stream", "bytestream" = sources that cannot seek (histories without Seek)
+	Truth      *Truth // when set (C01 read-back), replies carry hpos/dok instead of data/pm
+	Class      string
+	File       *File
+	Stream     []byte // bytes actually given to the reader (cut / corrupted variants); nil = File.Bytes
+	Faultable  bool
+	CutLen     int64 // -1, or logical length before a cut on a member boundary
+	RD         int
+	Ops        []ROp
+	FailRead   int
+	FailSeek   int
+	Partial    bool
+	Sticky     bool
+	Ref        []tr.M // replies of the reference (uncached) run, for "same" comparison
+	SrcKind    string // "" = seekable *Src; "stream", "bytestream" = sources that cannot seek (histories without Seek)
 }
 
 func newCacheOf(kind string, n int, stats bool) bgzf.Cache {
